@@ -381,6 +381,28 @@ func c05Widths(c *run.C) {
 			}
 		}
 	}
+	// long strings and containers whose length needs the 4- or 8-byte argument
+	if c.Idx%16 == 1 {
+		for _, L := range []int{65535, 65536, 65537, 70001} {
+			for _, w := range []int{2, 4, 8} {
+				if !fitsWidth(uint64(L), w) {
+					continue
+				}
+				str := bytes.Repeat([]byte{'y'}, L)
+				doc := append(cborHead(3, uint64(L), w), str...)
+				c.Begin(refCase{Codec: "cborl", Doc: fmt.Sprintf("text string of %d bytes, %d-byte length", L, w), How: "width-long"})
+				checkAgainstRef(c, codec.CBOR, doc, []val.V{val.VStr(string(str))}, val.NumExact, r)
+				doc = cborHead(4, uint64(L), w)
+				want := val.V{K: val.Arr, A: make([]val.V, L)}
+				for i := 0; i < L; i++ {
+					doc = append(doc, byte(i%24))
+					want.A[i] = val.VUint(uint64(i % 24))
+				}
+				checkAgainstRef(c, codec.CBOR, doc, []val.V{want}, val.NumExact, r)
+				n += 2
+			}
+		}
+	}
 	c.Observe("width_items", n)
 	c.Nontrivial(gen.Mix(50, uint64(c.Idx)))
 }
@@ -487,13 +509,18 @@ func c06Directed(c *run.C) {
 		}
 		doc = append(doc, ']')
 	case 1:
-		// string / key lengths with every marker for lengths 0..300
-		n := c.Idx / 3 % 301
+		// string / key lengths with every marker for lengths 0..300 and around
+		// the 2-byte boundaries
+		lens := []int{32767, 32768, 32769, 65535, 65536, 70001}
+		n := c.Idx / 3 % (301 + len(lens))
+		if n > 300 {
+			n = lens[n-301]
+		}
 		s := bytes.Repeat([]byte{'k'}, n)
 		want = val.V{K: val.Arr}
 		doc = append(doc, '[')
 		for _, m := range []byte{'i', 'U', 'I', 'l', 'L'} {
-			if (m == 'i' && n > 127) || (m == 'U' && n > 255) {
+			if (m == 'i' && n > 127) || (m == 'U' && n > 255) || (m == 'I' && n > 32767) {
 				continue
 			}
 			doc = append(doc, 'S')
